@@ -648,6 +648,15 @@ def unbrace_scalars(prog):
                         if isinstance(j, dict) and j.get('k') == 'InitList' and len(j.get('elems', [])) == 1:
                             d['init'] = j['elems'][0]
                             n += 1
+                    elif isinstance(i, dict) and str(d.get('ty', '')).replace('const ', '').startswith('std::array<'):
+                        # std::array is an aggregate around a C array: {{a, b, c}} after brace elision is the list {a, b, c}
+                        j = i
+                        while isinstance(j, dict) and j.get('k') in ('Cast', 'Copy') and isinstance(j.get('e'), dict):
+                            j = j['e']
+                        if isinstance(j, dict) and j.get('k') == 'InitList' and len(j.get('elems', [])) == 1 and \
+                                isinstance(j['elems'][0], dict) and j['elems'][0].get('k') == 'InitList':
+                            j['elems'] = j['elems'][0]['elems']
+                            n += 1
     return n
 
 
